@@ -210,12 +210,15 @@ class Model:
         return d
 
 
-def actions_for(fam, leaf, vals, tier_full):
+def actions_for(fam, leaf, vals, tier_full, none_ok=True):
     base = BASE()
     acts = []
     for via in OBJ_VIAS:
         for i in (0, 1):
             acts.append(("obj", via, i))
+    if none_ok:
+        for via in (OBJ_VIAS if tier_full else ["attr", "update_kw", "update_nested"]):
+            acts.append(("obj", via, None))  # assigning None clears the object's own value
     fk = f"display.style.{DEFAULT_FAMILY[fam]}.{leaf}"
     bk = f"display.style.base.{leaf}"
     if fk in base:
@@ -226,7 +229,8 @@ def actions_for(fam, leaf, vals, tier_full):
     return acts
 
 
-SECOND_REDUCED = [("obj", "attr", 1), ("obj", "update_kw", 1), ("obj", "update_nested", 0), ("fam", "attr", 0),
+SECOND_REDUCED = [("obj", "attr", 1), ("obj", "update_kw", 1), ("obj", "update_kw", None),
+                  ("obj", "update_nested", None), ("fam", "attr", 0),
                   ("base", "attr", 1), ("reset",)]
 
 
@@ -239,7 +243,13 @@ def check_leaf(task):
     vals, badval = probe_values(lambda: factory().style, leaf)
     if len(vals) < 2:
         return {"uncovered": f"{fam}:{leaf}", "transitions": 0, "histories": 0, "viols": []}
-    acts = actions_for(fam, leaf, vals, tier == "thorough")
+    try:  # is None an accepted value of this leaf (attribute notation decides)?
+        probe = factory().style
+        setp(probe, leaf, None)
+        none_ok = True
+    except Exception:
+        none_ok = False
+    acts = actions_for(fam, leaf, vals, tier == "thorough", none_ok)
     seconds = acts if tier == "thorough" else [a for a in acts if a in SECOND_REDUCED]
     us = leaf.replace(".", "_")
     viols = []
@@ -285,7 +295,7 @@ def check_leaf(task):
                 o_sig_before = norm(o.style.as_dict())
                 try:
                     if act[0] == "obj":
-                        c, b = vals[act[2]]
+                        c, b = vals[act[2]] if act[2] is not None else (None, None)
                         obj_write(o, leaf, act[1], copy.deepcopy(c))
                         m.obj = b
                     elif act[0] in ("fam", "base"):
@@ -305,7 +315,8 @@ def check_leaf(task):
             tag = "|".join(str(x) for x in act[:2])
             # 1 object layer
             got = getp(o.style, leaf)
-            exp_obj = m.obj if m.obj is not None else (fresh_leaf if born == "plain" else None)
+            written = any(st_[0] == "obj" for st_ in steps[1:])
+            exp_obj = m.obj if (m.obj is not None or written) else (fresh_leaf if born == "plain" else None)
             if norm(got) != norm(exp_obj):
                 report(f"object-style-wrong-after-{tag}", steps, f"got {got!r} expected {exp_obj!r}")
                 return
@@ -443,6 +454,84 @@ def check_default_leaf(task):
     return {"transitions": n, "viols": viols}
 
 
+def mutate_everything(style):
+    """change a set of leaves and every mutable container reachable from a style object"""
+    n = 0
+    for leaf, v in (("color", "blue"), ("opacity", 0.25), ("label", "changed"), ("description.text", "changed"),
+                    ("path.line.width", 7), ("path.marker.symbol", "x"), ("legend.show", False)):
+        try:
+            setp(style, leaf, v)
+            n += 1
+        except Exception:
+            pass
+    for t in style.model3d.data:
+        t.show = not t.show
+        t.scale = (t.scale or 1) * 3
+        if isinstance(t.kwargs, dict):
+            t.kwargs["x"] = [42, 43]
+            t.kwargs["added"] = 1
+        if isinstance(t.args, tuple) and t.args and isinstance(t.args[0], list):
+            t.args[0].append(99)
+        n += 1
+    if style.model3d.data:
+        style.model3d.data.append(style.model3d.data[0])
+    return n
+
+
+def shared_mutables(a, b):
+    from mc.props.C18 import reachable_mutables
+
+    ra, rb = reachable_mutables(a), reachable_mutables(b)
+    return sorted(f"{ra[k]} ~ {rb[k]}" for k in ra if k in rb)
+
+
+def check_style_copy(task):
+    """style.copy() and the resolved style returned by get_style() share nothing with the object's style"""
+    _, fam = task
+    from magpylib._src.style import get_style
+
+    hard_reset()
+    viols = []
+    n = 0
+    for variant in ("plain", "with_traces"):
+        def mk():
+            o = FAMILIES[fam]()
+            o.style.update(color="red", opacity=0.5)
+            if variant == "with_traces":
+                o.style.model3d.add_trace(backend="generic", constructor="Scatter3d",
+                                          kwargs={"x": [0, 1], "y": [0, 1], "z": [0, 1]}, show=True)
+                o.style.model3d.add_trace(backend="matplotlib", constructor="plot", args=([0, 1], [0, 1], [0, 1]),
+                                          kwargs={"ls": "--"}, show=False)
+            return o
+        for how in ("style.copy", "get_style", "obj.copy.style"):
+            o = mk()
+            before = norm(o.style.as_dict())
+            dbefore = norm(lin(DS().as_dict()))
+            if how == "style.copy":
+                cp = o.style.copy()
+            elif how == "get_style":
+                cp = get_style(o, DS())
+            else:
+                cp = o.copy().style
+            sh = shared_mutables(cp, o.style)
+            if sh:
+                viols.append((f"style-copy-shares-objects:{how}:{variant}", [fam, how, variant], f"{sh[:3]}"))
+            n += mutate_everything(cp)
+            if norm(o.style.as_dict()) != before:
+                viols.append((f"style-copy-shares-state:{how}:{variant}", [fam, how, variant], "mutating the copy changed the original style"))
+            if norm(lin(DS().as_dict())) != dbefore:
+                viols.append((f"style-copy-leaks-to-defaults:{how}:{variant}", [fam, how, variant], ""))
+            # and the other direction
+            o = mk()
+            cp = o.style.copy() if how == "style.copy" else (get_style(o, DS()) if how == "get_style" else o.copy().style)
+            sig_cp = norm(cp.as_dict())
+            n += mutate_everything(o.style)
+            if norm(cp.as_dict()) != sig_cp:
+                viols.append((f"style-copy-shares-state-reverse:{how}:{variant}", [fam, how, variant], "mutating the original changed the copy"))
+    hard_reset()
+    return {"transitions": n, "viols": viols}
+
+
 def leaves_of(fam):
     o = FAMILIES[fam]()
     out = []
@@ -457,6 +546,8 @@ def work(task):
     try:
         if task[0] == "default":
             return check_default_leaf(task[1])
+        if task[0] == "stylecopy":
+            return check_style_copy(task)
         return check_leaf(task)
     except Exception as e:
         import traceback
@@ -473,7 +564,7 @@ def run(tier, seed):
             continue
         for leaf in leaves_of(fam):
             tasks.append((fam, leaf, tier))
-    dtasks = [("default", k) for k in BASE()]
+    dtasks = [("default", k) for k in BASE()] + [("stylecopy", fam) for fam in FAMILIES]
     res = common.pmap(work, tasks + dtasks, chunk=1)
     viols, harness, uncovered = [], [], []
     trans = hist = 0
@@ -514,6 +605,6 @@ def run(tier, seed):
 
 def replay(case):
     t = case["task"]
-    r = work(tuple(t) if t[0] != "default" else ("default", t[1]))
+    r = work(tuple(t))
     vs = [v for v in r.get("viols", []) if v[0] == case.get("kind")]
     return {"violated": bool(vs), "observed": [[v[0], [str(x) for x in v[1]], v[2]] for v in vs][:5]}
